@@ -12,7 +12,9 @@ EXTENDS Naturals, Sequences, FiniteSets, TLC, Json, IOUtils
 CONSTANTS Export, MaxMut
 MsgMut  == {"seq", "mtype", "method", "status", "metaadd", "metaset", "body", "newbody", "codec", "pipe", "ctx", "size"}
 ArgsMut == {"add", "addempty", "set", "parse", "parsebare", "del"}
-SockMut == {"setid", "swapstore", "swapreplace"}
+\* "concclose": the previous user closes the socket from two goroutines at the same moment (a reader that
+\* gives up on an error while the owner shuts down): the socket must return to the pool once
+SockMut == {"setid", "swapstore", "swapreplace", "concclose"}
 PipeMut == {"appendg", "appendm", "appendgm"}
 CtxFeat == {"meta", "pipe", "codec", "outmeta", "outcodec", "swap", "status"}   \* what request 1 used
 Seqs(S, n) == UNION {[1..k -> S] : k \in 0..n}
